@@ -11,7 +11,7 @@ every schedule (any runnable task may be resumed) and every placement of `cancel
 The model is PriorityLock with fixes/C13-double-wakeup.patch (and the two C12 patches) applied; on the unrepaired
 `_wake_up_first` `woken_waiter_finds_lock_free` is false (corpus/C13/double-wakeup.json).
 -/
-import Asynkit.Lemmas.C13Step
+import Asynkit.Lemmas.C13Progress
 
 namespace Asynkit.C13
 open Asynkit.Lock
@@ -136,43 +136,71 @@ theorem quiescent_clean {s : State} (h : Reachable s) (hq : ∀ i, (s.tasks i).s
 
 /-! ### progress
 
-Full statement (kept here, not proved as a temporal property):
-  in every fair execution from a reachable state in which no further cancel/throw/interrupt
-  occurs and every holder eventually releases, every task queued on a lock that is not
-  resumed with an exception eventually owns the lock.
-What is proved is the variant argument it rests on: whenever a lock is free with waiters,
-an in-flight waiter is runnable (`wake_in_flight_runnable`); running *any* queued waiter strictly
-shrinks the queue, gives it the lock if it resumes normally, and the result is again a reachable
-state, so `wake_in_flight` holds again.  Missing: the definition of fair infinite executions and
-the induction over the variant (queue length) along them. -/
+"If no more faults occur and holders release, every acquirer that is not cancelled gets the lock",
+as a finite statement about *drain runs*.  A drain step of lock `k` (`Lock.DrainStep`) is: some task
+queued on `k` whose handle is ready is resumed - it takes the lock, or, having been cancelled or
+interrupted earlier, gives up and passes the wake-up on - and then yields (`sleep`) or finishes; no
+cancel / throw / interrupt occurs.  `progress` says, for **every** run of such steps from any
+reachable state (whatever faults happened before):
+  * it is finite - at most as long as the queue it started with - and ends in a reachable state;
+  * if it cannot be extended (`hmax`), then the lock is held or nobody is queued any more; and a
+    holder is either the old one or one of the tasks that were queued at the start;
+so a free lock never strands a waiter: as long as somebody is queued on a free lock a further step
+exists (`drain_step_exists`), and each waiter resumed without a pending exception becomes the owner
+(`woken_waiter_gets_lock`).  What is left to the environment is exactly the hypothesis of the
+property: a holder must release (then `release` re-establishes `wake_in_flight`). -/
 
-theorem progress_partial {s : State} (h : Reachable s) {i k : Nat}
+/-- while a free lock has waiters and no task is running, a drain step exists -/
+theorem drain_step_exists {s : State} (h : Reachable s) (k : Nat) (hc : s.cur = none)
+    (hfree : (s.locks k).locked = false) (hq : (s.locks k).waiters ≠ []) :
+    ∃ s', DrainStep k s s' := drainStep_exists h hc hfree hq
+
+/-- **progress** -/
+theorem progress {s s' : State} {k n : Nat} (h : Reachable s) (hc : s.cur = none)
+    (r : DrainRun k s s' n) :
+    Reachable s' ∧ n ≤ (s.locks k).waiters.length ∧
+    ((s'.locks k).owner = (s.locks k).owner ∨
+      ∃ w ∈ (s.locks k).waiters, (s'.locks k).owner = some w.task) ∧
+    ((∀ s'', ¬ DrainStep k s' s'') →
+      (s'.locks k).locked = true ∨ (s'.locks k).waiters = []) := by
+  obtain ⟨hr, hle, hcur, _, hown⟩ := drainRun_spec h r
+  refine ⟨hr, by omega, ?_, fun hmax => ?_⟩
+  · rcases hown with e | ⟨t, ht, e⟩
+    · exact Or.inl e
+    · obtain ⟨w, hw, rfl⟩ := List.mem_map.mp ht
+      exact Or.inr ⟨w, hw, e⟩
+  · have hc' : s'.cur = none := by
+      cases n with
+      | zero => cases r; exact hc
+      | succ m => exact hcur (Nat.succ_pos m)
+    cases hl : (s'.locks k).locked with
+    | true => exact Or.inl rfl
+    | false =>
+      right
+      cases hw : (s'.locks k).waiters with
+      | nil => rfl
+      | cons w ws =>
+        obtain ⟨s'', d⟩ := drainStep_exists hr hc' hl (by rw [hw]; simp)
+        exact absurd d (hmax s'')
+
+/-- a queued waiter that is resumed without an exception pending (woken by the hand-over, never
+    cancelled or interrupted since) owns the lock afterwards; any resumed waiter leaves the queue -/
+theorem woken_waiter_gets_lock {s : State} (h : Reachable s) {i k : Nat}
     (hp : (s.tasks i).pos = .acq k) (hen : (Ev.resume i).enabled s = true) :
     Reachable (s.apply (.resume i)) ∧
     ((s.apply (.resume i)).locks k).waiters.length < (s.locks k).waiters.length ∧
     (resumeExc (s.tasks i) = false → ((s.apply (.resume i)).locks k).owner = some i) := by
-  refine ⟨Reachable.step _ h hen, ?_, ?_⟩
-  · obtain ⟨p, hp', e⟩ := ((lock_inv h).linv k).queued i hp
-    obtain ⟨w, hw, e'⟩ := List.mem_map.mp hp'
-    have hwi : w.task = i := by rw [← e, ← e']; rfl
-    have hlt : (removeTask (s.locks k).waiters i).length < (s.locks k).waiters.length := by
-      unfold removeTask
-      apply List.length_filter_lt_length_iff_exists.mpr
-      exact ⟨w, hw, by simp [hwi]⟩
-    simp only [State.apply, State.doResume, hp]
-    by_cases hx : resumeExc (s.tasks i) = true
-    · simp only [hx, if_true]
-      split
-      · split
-        · rw [propT_waiters_length]; simpa using hlt
-        · simpa using hlt
-      · rw [wakeUpFirst_waiters_length]; simpa using hlt
-    · simp only [hx]
-      simp [State.takeLock]
-      simpa using hlt
-  · intro hx
-    simp only [State.apply, State.doResume, hp, hx]
-    simp [State.takeLock]
+  refine ⟨Reachable.step _ h hen, resume_queue_shrinks (lock_inv h) hp, fun hx => ?_⟩
+  show ((s.doResume i).locks k).owner = some i
+  rw [(resume_queued_spec s hp).1]; simp [hx]
+
+/-- old name, kept: the variant step on its own -/
+theorem progress_partial {s : State} (h : Reachable s) {i k : Nat}
+    (hp : (s.tasks i).pos = .acq k) (hen : (Ev.resume i).enabled s = true) :
+    Reachable (s.apply (.resume i)) ∧
+    ((s.apply (.resume i)).locks k).waiters.length < (s.locks k).waiters.length ∧
+    (resumeExc (s.tasks i) = false → ((s.apply (.resume i)).locks k).owner = some i) :=
+  woken_waiter_gets_lock h hp hen
 
 /-! ### non-vacuity: a concrete reachable state with a contended free lock -/
 
@@ -186,5 +214,10 @@ def demo : State :=
 example : (demo.locks 0).locked = false ∧ (demo.locks 0).waiters.map (·.task) = [1] ∧
     (demo.locks 0).waiters.map (·.fut) = [.result] ∧ (demo.tasks 1).status = .woken false := by
   decide
+
+/-- non-vacuity of `progress`: from `demo` the (only) drain run resumes task 1, which takes the lock -/
+example : DrainRun 0 demo ((demo.apply (.resume 1)).apply .sleep) 1 ∧
+    (((demo.apply (.resume 1)).apply .sleep).locks 0).owner = some 1 := by
+  refine ⟨DrainRun.cons ⟨1, .sleep, by decide, by decide, Or.inl rfl, by decide, rfl⟩ (DrainRun.nil _), by decide⟩
 
 end Asynkit.C13
